@@ -852,6 +852,34 @@ class Gen:
         return out
 
 
+    def nearby_cases(self, n):
+        """B cases (round 5): the NEARBY_REGISTER index of BitFlipDetails::confidence — amd64 crash one flipped bit (12..47) from the
+        only mapped page, 0..16 registers within / just outside 4096 bytes of the corrected address (also below the low-address cut-off)"""
+        rng = self.rng
+        out = []
+        for _ in range(n):
+            page = rng.choice([0x80000, 0x10180000, 0x7f00a0001000, 0x3000, 0x5000, 0x2000, 0x13000, 0x100003000])
+            good = page + rng.below(0x1000)
+            bit = rng.range(12, 47)
+            crash = good ^ (1 << bit)
+            if crash & (crash - 1) == 0:          # a power of two: NULL would be a second candidate
+                good |= 0x9000000
+                crash = good ^ (1 << bit)
+            near = rng.choice([0, 0, 1, 2, 3, 4, 5, 6, 7, 8, 10, 13, 16])
+            vals = []
+            for i in range(16):
+                if i < near:
+                    d = rng.choice([0, 1, 0xfff, 0x1000, rng.below(0x1001)])
+                    vals.append((good + d if rng.chance(1, 2) else good - d) & U64)
+                else:
+                    vals.append(rng.choice([0, good + 0x1001, (good - 0x1001) & U64, crash, 1 << 40, rng.below(1 << 47)]))
+            for i in range(15, 0, -1):
+                j = rng.below(i + 1)
+                vals[i], vals[j] = vals[j], vals[i]
+            out.append("B %d %d 16 %s" % (good, crash, " ".join(str(v) for v in vals)))
+        self.dist["nearby_register_cases"] = n
+        return out
+
     def thread_cases(self, n):
         """T cases (round 5): the thread loop of into_process_state — several threads (duplicate ids, threads without context,
         without stack bytes), the dump-writer / requesting thread of a breakpad-info stream, an exception stream whose thread is
@@ -1133,6 +1161,7 @@ class C03(PropBase):
         nd, nf, ns = (9000, 1500, 6000) if tier == "quick" else (120000, 12000, 60000)
         cases = g.site_cases(ns)
         cases += g.thread_cases(1500 if tier == "quick" else 20000)
+        cases += g.nearby_cases(500 if tier == "quick" else 6000)
         # exhaustive block 1: amd64 instruction bytes at the crashing rip, generated from the opcode / ModRM table —
         # every opcode byte of the one-byte and 0f maps x every ModRM reg field (group opcodes select the operation with
         # it: 80/81/83, c0/c1/d0-d3, f6/f7 /0../7, fe/ff, 0f 00/01/ba/c7 ...) x operand forms, with REX.W and without
@@ -1182,6 +1211,11 @@ class C03(PropBase):
         kind = case[0]
         if kind == "T":
             return self.oracle_threads(case, ans)
+        if kind == "B":
+            f = ans.split()
+            if len(f) != 3 or f[0] != "B" or not f[1].isdigit() or not (f[2] == "-" or (f[2].isdigit() and int(f[2]) < 4)):
+                return "bit-flip candidate / NEARBY_REGISTER entry not identified: " + ans[:100]
+            return None
         if kind in "LGSJAIU":
             if not ans.startswith(kind + " ") and ans != kind:
                 return "unparseable site answer " + ans[:100]
@@ -1254,7 +1288,7 @@ class C03(PropBase):
     def nontrivial(self, case, ans):
         if case[0] == "T":
             return ans.startswith("T req=") and "/" in ans
-        if case[0] in "LGSJAIU":
+        if case[0] in "LGSJAIUB":
             return not ans.startswith("P;;")
         return " r=ok " in ans and " thr=0 " not in ans
 
